@@ -188,6 +188,32 @@ theorem c11_registered_usable (tps : List TP) : ∀ e ∈ registerAll tps, e.isS
   obtain ⟨t, _, rfl⟩ := he
   rfl
 
+/-- **registered in code or received from the service: the same interpretation** — one tracepoint with the same
+    arguments, watches and (converted) metric definitions gives the same trigger — same place, same actions, same
+    limits — whether it is registered through `add_custom` or arrives alone in a poll response; and it is left out on
+    both paths in exactly the same cases.  (Both paths call the one translated `build_trigger`; what differs is the
+    id — a fresh uuid for a registration — and that registrations hand over ready-made `MetricDefinition`s.) -/
+theorem c11_registered_as_service (tp : TP) : registerAll [tp] = (convertResponse [tp]).map some := by
+  cases h : tp.build <;>
+    simp [registerAll, addCustomSkipsNone, convertResponse, convertResponseFrom, stepResponse, mergeInto, h]
+
+/-- …and for whole lists: what the registrations install, tracepoint by tracepoint, is what a response with the
+    same tracepoints installs, before same-location grouping: every action of every registered trigger is in the
+    response's trigger of that location id, and every action installed from the response is some registration's. -/
+theorem c11_registered_vs_response (tps : List TP) :
+    (∀ t, some t ∈ registerAll tps → ∀ a ∈ t.actions, ∃ g ∈ convertResponse tps, g.id = t.id ∧ a ∈ g.actions) ∧
+    (∀ g ∈ convertResponse tps, ∀ a ∈ g.actions, ∃ t, some t ∈ registerAll tps ∧ t.id = g.id ∧ a ∈ t.actions) := by
+  constructor
+  · intro t ht a ha
+    simp only [registerAll, addCustomSkipsNone, if_true, List.mem_map, List.mem_filterMap, Option.some.injEq] at ht
+    obtain ⟨t', ⟨tp, hm, hb⟩, rfl⟩ := ht
+    exact c11_merge_keeps_all tps tp hm t' hb a ha
+  · intro g hg a ha
+    obtain ⟨tp, hm, t, hb, hid, hat⟩ := c11_merge_no_extra tps g hg a ha
+    refine ⟨t, ?_, hid, hat⟩
+    simp only [registerAll, addCustomSkipsNone, if_true, List.mem_map, List.mem_filterMap, Option.some.injEq]
+    exact ⟨t, ⟨tp, hm, hb⟩, rfl⟩
+
 /-- metric definitions reach the agent unchanged: name, type NAME, labels (static value or expression),
     expression, namespace, help, unit — for every list of definitions; a definition whose type number is not one of
     the four documented ones makes the conversion fail (proto3 enums are open: `MetricType.Name` raises) -/
